@@ -10,40 +10,45 @@ def _values_for(value, rng, pool):
     from cryptoparser.common.base import ArrayBase
     out = []
     if isinstance(value, bool):
-        return [not value]
+        return [('flip', not value)]
     if isinstance(value, enum.Enum):
         members = list(type(value))
         if len(members) > 24:
             members = members[:8] + rng.sample(members[8:], 12) + members[-4:]
-        return [m for m in members if m is not value]
+        return [('member', m) for m in members if m is not value]
     if isinstance(value, int):
-        return [v for v in (0, 1, 2, 127, 128, 255, 256, 65535, 65536, 2 ** 24 - 1, 2 ** 31, 2 ** 32 - 1, 2 ** 32, 2 ** 63, 2 ** 64 - 1,
-                            value + 1, value ^ 0x80) if v != value]
+        return [(('2^%d' % (v.bit_length() - 1) if v and v & (v - 1) == 0 else '2^%d-1' % v.bit_length() if v and v & (v + 1) == 0 else str(v)) if i < 15 else ('plus1', 'flip7')[i - 15], v)
+                for i, v in enumerate((0, 1, 2, 127, 128, 255, 256, 65535, 65536, 2 ** 24 - 1, 2 ** 31, 2 ** 32 - 1, 2 ** 32, 2 ** 63, 2 ** 64 - 1,
+                                       value + 1, value ^ 0x80)) if v != value]
     if isinstance(value, (bytes, bytearray)):
         t = type(value)
-        return [t(b''), t(b'\x00'), t(bytes(rng.randrange(256) for _ in range(33))), t(b'\xff' * 2), t(bytes(value) * 2)]
+        return [('empty', t(b'')), ('zero1', t(b'\x00')), ('random33', t(bytes(rng.randrange(256) for _ in range(33)))), ('ff2', t(b'\xff' * 2)),
+                ('doubled', t(bytes(value) * 2))]
     if isinstance(value, str):
-        return ['a', 'abc-123', 'x' * 255, 'y' * 256, ('z1' * 150), ('w' * 600), value + value]
+        return [('len1', 'a'), ('len7', 'abc-123'), ('len255', 'x' * 255), ('len256', 'y' * 256), ('len300', 'z1' * 150), ('len600', 'w' * 600),
+                ('doubled', value + value)]
     if isinstance(value, datetime.datetime):
         utc = datetime.timezone.utc
-        vals = [datetime.datetime(1970, 1, 1, tzinfo=utc), datetime.datetime(2024, 7, 1, 12, 0, 0, tzinfo=utc),
-                datetime.datetime(2038, 1, 19, 3, 14, 7, tzinfo=utc),
-                datetime.datetime(2024, 5, 1, 14, 0, 0, tzinfo=datetime.timezone(datetime.timedelta(hours=2))),
-                datetime.datetime(2012, 6, 1, 12, 0, 0, 123000, tzinfo=datetime.timezone(datetime.timedelta(hours=-5, minutes=-30))),
-                datetime.datetime(2001, 9, 9, 1, 46, 40)]
+        # aware datetimes only: the parsers produce aware (UTC) datetimes, a naive one has no defined instant
+        vals = [('epoch', datetime.datetime(1970, 1, 1, tzinfo=utc)), ('utc2024', datetime.datetime(2024, 7, 1, 12, 0, 0, tzinfo=utc)),
+                ('utc2038', datetime.datetime(2038, 1, 19, 3, 14, 7, tzinfo=utc)),
+                ('plus0200', datetime.datetime(2024, 5, 1, 14, 0, 0, tzinfo=datetime.timezone(datetime.timedelta(hours=2)))),
+                ('minus0530', datetime.datetime(2012, 6, 1, 12, 0, 0, tzinfo=datetime.timezone(datetime.timedelta(hours=-5, minutes=-30))))]
+        if value.tzinfo is None:
+            vals = [(l, v.astimezone(utc).replace(tzinfo=None)) for l, v in vals[:3]]
         return vals
     if isinstance(value, datetime.timedelta):
-        return [datetime.timedelta(0), datetime.timedelta(seconds=1), datetime.timedelta(days=400)]
+        return [('zero', datetime.timedelta(0)), ('1s', datetime.timedelta(seconds=1)), ('400d', datetime.timedelta(days=400))]
     if isinstance(value, ArrayBase):
         items = list(value)
-        outs = [[], items[:1], items + items, items[::-1]]
+        outs = [('empty', []), ('first', items[:1]), ('doubled', items + items), ('reversed', items[::-1])]
         extra = pool.get(type(value), [])
         if extra:
-            outs.append(items + extra[:2])
-            outs.append(extra[:1])
-        return [o for o in outs if o != items]
+            outs.append(('plus-pool', items + extra[:2]))
+            outs.append(('pool1', extra[:1]))
+        return [(l, o) for l, o in outs if o != items]
     if type(value) in (list, tuple) and value:
-        return [type(value)(value[:1]), type(value)(list(value) + list(value)), type(value)(value[::-1])]
+        return [('first', type(value)(value[:1])), ('doubled', type(value)(list(value) + list(value))), ('reversed', type(value)(value[::-1]))]
     return out
 
 
@@ -63,7 +68,7 @@ def variants(obj, rng, pool, per_field=8, others=()):
             for o in others:
                 v = getattr(o, f.name, None)
                 if v is not None:
-                    cands.append(v)
+                    cands.append(('present', v))
                     break
         else:
             try:
@@ -71,12 +76,12 @@ def variants(obj, rng, pool, per_field=8, others=()):
             except Exception:  # pylint: disable=broad-except
                 cands = []
             if f.default is None:
-                cands.append(None)
-        if len(cands) > per_field:
+                cands.append(('absent', None))
+        if len(cands) > per_field and all(l == 'member' for l, _ in cands):
             cands = cands[:3] + rng.sample(cands[3:], per_field - 3)
-        for v in cands:
+        for label, v in cands:
             try:
-                yield '%s=%s' % (f.name, repr(v)[:40]), attr.evolve(obj, **{f.name.lstrip('_'): v})
+                yield '%s=%s' % (f.name, label), attr.evolve(obj, **{f.name.lstrip('_'): v})
             except Exception:  # pylint: disable=broad-except
                 continue
 
